@@ -120,6 +120,7 @@ type KVSys[K comparable, V comparable] struct {
 	VCmp   func(a, b V) int
 	Probes func(live []K) []K // extra probe keys for fixed universes (nil: the universe)
 	PropsL []string
+	NoCount bool // do not count comparator calls (pure comparators for the concurrent passes)
 }
 
 func (s *KVSys[K, V]) Name() string {
@@ -157,9 +158,22 @@ type kvBox[K comparable, V comparable] struct {
 	nextR  int
 }
 
-// comparators given to the container count their calls
+// comparators given to the container count their calls (only when the system asks for
+// it: a counting comparator writes shared memory, which the concurrent-reader pass must not)
 func (b *kvBox[K, V]) kcmp(x, y K) int { b.calls++; return b.sys.KCmp(x, y) }
 func (b *kvBox[K, V]) vcmp(x, y V) int { b.calls++; return b.sys.VCmp(x, y) }
+func (b *kvBox[K, V]) kc() func(x, y K) int {
+	if b.sys.NoCount {
+		return b.sys.KCmp
+	}
+	return b.kcmp
+}
+func (b *kvBox[K, V]) vc() func(x, y V) int {
+	if b.sys.NoCount {
+		return b.sys.VCmp
+	}
+	return b.vcmp
+}
 
 func (s *KVSys[K, V]) New() Inst { return s.newBox() }
 
@@ -183,7 +197,7 @@ func btBound(m int) func(n int) float64 {
 func (s *KVSys[K, V]) api(b *kvBox[K, V]) *kvAPI[K, V] {
 	switch s.Kind {
 	case "rbt":
-		t := redblacktree.NewWith[K, V](b.kcmp)
+		t := redblacktree.NewWith[K, V](b.kc())
 		nk := func(n *redblacktree.Node[K, V], ok bool) (K, V, bool) {
 			if n == nil || !ok {
 				var k K
@@ -206,7 +220,7 @@ func (s *KVSys[K, V]) api(b *kvBox[K, V]) *kvAPI[K, V] {
 			shape:   func() *Viol { return rbtShape(t) },
 			bound:   rbBound, putMul: 1, remMul: 1}
 	case "avl":
-		t := avltree.NewWith[K, V](b.kcmp)
+		t := avltree.NewWith[K, V](b.kc())
 		nk := func(n *avltree.Node[K, V], ok bool) (K, V, bool) {
 			if n == nil || !ok {
 				var k K
@@ -229,7 +243,7 @@ func (s *KVSys[K, V]) api(b *kvBox[K, V]) *kvAPI[K, V] {
 			shape:   func() *Viol { return avlShape(t) },
 			bound:   avlBound, putMul: 1, remMul: 1}
 	case "btree":
-		t := btree.NewWith[K, V](s.Order, b.kcmp)
+		t := btree.NewWith[K, V](s.Order, b.kc())
 		entryT := reflect.TypeOf([]*btree.Entry[K, V]{})
 		childT := reflect.TypeOf([]*btree.Node[K, V]{})
 		return &kvAPI[K, V]{obj: t, name: "BTree", put: t.Put, get: t.Get, remove: t.Remove, clear: t.Clear, size: t.Size,
@@ -264,11 +278,11 @@ func (s *KVSys[K, V]) api(b *kvBox[K, V]) *kvAPI[K, V] {
 			shape: func() *Viol { return btShape(t, s.Order) },
 			bound: btBound(s.Order), putMul: 1, remMul: 1}
 	case "treemap":
-		return wrapTreeMap(treemap.NewWith[K, V](b.kcmp))
+		return wrapTreeMap(treemap.NewWith[K, V](b.kc()))
 	case "treebidimap":
-		return wrapTreeBidiMap(treebidimap.NewWith[K, V](b.kcmp, b.vcmp))
+		return wrapTreeBidiMap(treebidimap.NewWith[K, V](b.kc(), b.vc()))
 	case "treeset":
-		t := treeset.NewWith[K](b.kcmp)
+		t := treeset.NewWith[K](b.kc())
 		var zv V
 		return &kvAPI[K, V]{obj: t, name: "TreeSet", put: func(k K, _ V) { t.Add(k) },
 			get:    func(k K) (V, bool) { return zv, t.Contains(k) },
